@@ -11,10 +11,7 @@ package main
 import (
 	"errors"
 	"fmt"
-	"net/http"
-	"net/url"
 	"runtime"
-	"sort"
 	"strings"
 	"sync"
 	"sync/atomic"
@@ -63,7 +60,14 @@ func main() {
 			if len(c.Pool) == 0 {
 				continue
 			}
-			hist.GenOps(r, &c.Case, 4+r.IntN(10), 0, false)
+			if i%3 == 1 {
+				// one method, a random part of the pool registered one commit at a time: the program then adds, updates
+				// and removes siblings of existing children
+				c.Methods = hist.MethodPool[:1]
+				hist.GenPartial(r, &c.Case, 3, 5)
+			} else {
+				hist.GenOps(r, &c.Case, 4+r.IntN(10), 0, false)
+			}
 			c.Setup = len(c.Ops)
 			hist.GenOps(r, &c.Case, c.Setup+2+r.IntN(7), 0, r.IntN(3) == 0)
 			check(run, c)
@@ -127,12 +131,20 @@ func one(run *kit.Run, c caseFile, prog []hist.Op, k int, ending, id string) {
 					fail("isolation", "after step %d (%s) of the open transaction the router no longer shows the committed state\n%s", i, op, hist.Diff(before, got))
 					return
 				}
+				if d := w.RoutingProblem(w.F, w.Committed); d != "" {
+					fail("isolation", "after step %d (%s) of the open transaction the router no longer routes like the committed state: %s", i, op, d)
+					return
+				}
 				if quiet && i < k-1 {
 					continue
 				}
 				// the transaction reads its own writes
 				if want, got := w.Expect(w.Pending), w.Observe(txn); want != got {
 					fail("own-writes", "after step %d (%s) the transaction does not show its own writes\n%s", i, op, hist.Diff(want, got))
+					return
+				}
+				if d := w.RoutingProblem(txn, w.Pending); d != "" {
+					fail("own-writes", "after step %d (%s) lookups through the transaction do not follow its own writes: %s", i, op, d)
 					return
 				}
 				run.Count("in_txn_observations", 2)
@@ -234,6 +246,13 @@ func one(run *kit.Run, c caseFile, prog []hist.Op, k int, ending, id string) {
 		}
 		if got := w.Observe(w.F); got != want {
 			fail("atomicity", "after the ending the router shows neither all (commit) nor none (otherwise) of the writes\n%s", hist.Diff(want, got))
+		}
+		final := w.Committed
+		if committed && w.Pending != nil {
+			final = w.Pending
+		}
+		if d := w.RoutingProblem(w.F, final); d != "" {
+			fail("atomicity", "after the ending the router does not route like the state it must show (all writes after a commit, none otherwise): %s", d)
 		}
 		// the settled write transaction refuses further use
 		for name, f := range map[string]func(){
@@ -427,81 +446,7 @@ func concurrent(run *kit.Run) {
 	}
 	run.Count("concurrent_single_snapshot_reads", reads.Load())
 	run.Count("concurrent_torn_reads", torn.Load())
-	allowFlip(run)
+	conc.AllowFlip(run)
 	conc.MethodFlip(run)
 }
 
-// allowFlip: one request is served from one routing state. Transactions flip the methods registered for a path
-// between two disjoint sets; the Allow header of a 405 / automatic OPTIONS reply computed while they commit must be
-// exactly one of the two sets, never a mixture (several lookups inside one ServeHTTP must use the same tree).
-func allowFlip(run *kit.Run) {
-	rounds := run.Pick(10, 100)
-	setA := []string{"GET", "POST", "FOO"}
-	setB := []string{"PUT", "PATCH", "BAR"}
-	want := map[string]bool{"FOO, GET, POST": true, "BAR, PATCH, PUT": true, "FOO, GET, OPTIONS, POST": true, "BAR, OPTIONS, PATCH, PUT": true}
-	var replies, mixed atomic.Int64
-	for round := 0; round < rounds; round++ {
-		f, _ := fox.New(fox.WithNoMethod(true), fox.WithAutoOptions(true))
-		h := func(fox.Context) {}
-		for _, m := range setA {
-			f.MustHandle(m, "/flip/{id}", h)
-		}
-		var wg sync.WaitGroup
-		var stop atomic.Bool
-		wg.Add(1)
-		go func() {
-			defer wg.Done()
-			cur, other := setA, setB
-			for i := 0; i < 300 && !stop.Load(); i++ {
-				_ = f.Updates(func(txn *fox.Txn) error {
-					for _, m := range cur {
-						if _, err := txn.Delete(m, "/flip/{id}"); err != nil {
-							return err
-						}
-					}
-					for _, m := range other {
-						if _, err := txn.Handle(m, "/flip/{id}", h); err != nil {
-							return err
-						}
-					}
-					return nil
-				})
-				cur, other = other, cur
-			}
-			stop.Store(true)
-		}()
-		for rd := 0; rd < 6; rd++ {
-			wg.Add(1)
-			go func(rd int) {
-				defer wg.Done()
-				for !stop.Load() {
-					method := "DELETE"
-					if rd%2 == 1 {
-						method = "OPTIONS"
-					}
-					w := &allowW{h: http.Header{}}
-					f.ServeHTTP(w, &http.Request{Method: method, URL: &url.URL{Path: "/flip/1"}, Header: http.Header{}, Proto: "HTTP/1.1", ProtoMajor: 1, ProtoMinor: 1})
-					parts := strings.Split(w.h.Get("Allow"), ", ")
-					sort.Strings(parts)
-					got := strings.Join(parts, ", ")
-					replies.Add(1)
-					if !want[got] {
-						mixed.Add(1)
-						stop.Store(true)
-						run.Violate(fmt.Sprintf("torn-allow|round=%d", round), fmt.Sprintf("a %s request answered while transactions flip the method set of its path got Allow=%q: neither the set before nor the set after a transaction", method, w.h.Get("Allow")), map[string]any{"round": round, "allow": w.h.Get("Allow")})
-					}
-				}
-			}(rd)
-		}
-		wg.Wait()
-		run.Case(fmt.Sprintf("allow-flip|%d", round), true)
-	}
-	run.Count("concurrent_allow_replies", replies.Load())
-	run.Count("concurrent_allow_mixed", mixed.Load())
-}
-
-type allowW struct{ h http.Header }
-
-func (w *allowW) Header() http.Header         { return w.h }
-func (w *allowW) Write(b []byte) (int, error) { return len(b), nil }
-func (w *allowW) WriteHeader(int)             {}
